@@ -411,10 +411,10 @@ func (x *Exec) applyContract(c *callCtx, fc *FuncContract, sig *types.Signature,
 		}
 		if callee != nil {
 			pre := x.allocNow(c.st)
+			x.bumpAlloc(c.n, c.st)
 			for _, h := range x.prog.modFreshList(callee) {
 				x.havocFresh(c.n, c.st, h, pre)
 			}
-			x.bumpAlloc(c.n, c.st)
 			return x.prog.modHeapsList(callee)
 		}
 		return nil
